@@ -97,6 +97,8 @@ func freshReader(sym string) gozxing.Reader {
 		return oned.NewCode128Reader()
 	case "code93":
 		return oned.NewCode93Reader()
+	case "multi":
+		return oned.NewMultiFormatUPCEANReader(nil)
 	}
 	return nil
 }
@@ -278,6 +280,7 @@ func toArray(row []bool, quiet int) *gozxing.BitArray {
 }
 
 type readOut struct {
+	format gozxing.BarcodeFormat
 	text string
 	ext  string
 	raw  []byte
@@ -329,6 +332,7 @@ func read(rd gozxing.Reader, row []bool, scale int) (o readOut) {
 		return
 	}
 	o.text = res.GetText()
+	o.format = res.GetBarcodeFormat()
 	o.raw = res.GetRawBytes()
 	if v, ok := res.GetResultMetadata()[gozxing.ResultMetadataType_UPC_EAN_EXTENSION]; ok {
 		o.ext = fmt.Sprint(v)
@@ -437,6 +441,28 @@ func exec10(tr *Trace10, probe func(string)) (string, *fail) {
 		o := read(newReader(tr.Sym), row, tr.Scale)
 		ok := verifies(tr.Sym, full)
 		carried := strOf(full)
+		if tr.Scale > 0 {
+			// the multi-format UPC/EAN reader sees the same image: whatever it
+			// returns, in whatever format, must verify by that format's rule
+			mo := read(newReader("multi"), row, tr.Scale)
+			if mo.pan != nil {
+				return "", &fail{"multi/panic", fmt.Sprintf("MultiFormatUPCEANReader panicked on %s %s: %v", tr.Sym, carried, mo.pan)}
+			}
+			if mo.err == nil {
+				d := digitsOf(mo.text)
+				fsym := map[int]string{13: "ean13", 12: "upca", 8: "ean8"}[len(d)]
+				if mo.format == gozxing.BarcodeFormat_UPC_E {
+					fsym = "upce"
+				}
+				if fsym == "" || !verifies(fsym, d) {
+					return "", &fail{"multi/returns-unverified", fmt.Sprintf("MultiFormatUPCEANReader returned %q (%v) for a %s symbol carrying %s: its check digit does not verify", mo.text, mo.format, tr.Sym, carried)}
+				}
+				if !ok && mo.text == carried {
+					return "", &fail{"multi/accepts-failed-check", fmt.Sprintf("MultiFormatUPCEANReader returned the carried number %s although its check digit fails", carried)}
+				}
+				probe("probe.multi_format_result_verified")
+			}
+		}
 		return judgeUPCEAN(tr, o, carried, ok, probe)
 	case "addon":
 		base := digitsOf(tr.Content)
@@ -769,7 +795,7 @@ func jobs10(tier string) []job10 {
 	}
 	ns := 1500
 	if tier == "thorough" {
-		ns = 40000
+		ns = 80000
 	}
 	for i := 0; i < ns; i++ {
 		j = append(j, job10{kind: "subst"})
